@@ -152,6 +152,10 @@ pub fn check_diff(rep: &mut Rep, w: &World, f_c: i128, sf: TimeScale, e_c: i128,
     if sf != se || near_leap {
         rep.nt(h64(&[2, f_c as u64, scale_idx(sf), e_c as u64, (e_c >> 64) as u64, scale_idx(se)]));
     }
+    if tol > 0 && (sf == TimeScale::UTC || se == TimeScale::UTC) && w.near_utc_discontinuity(t_e, 100) {
+        rep.class("diff/dyn-near-utc-discontinuity(dc)");
+        return;
+    }
     // reading of e's instant in f's scale
     let e_in_f = if sf == se { Some(e_c) } else { w.from_tai(t_e, sf) };
     let e_in_f = match e_in_f {
